@@ -9,7 +9,7 @@ LINEAR = ["countmin._query_linear", "countmin._add_linear", "countmin._merge_lin
 LOG = ["countmin._counter2value", "countmin._rand", "countmin._log_counter", "countmin._query_log16", "countmin._query_log8", "countmin._add_log16", "countmin._add_log8", "countmin._merge_log16", "countmin._merge_log8"]
 
 
-def constructor_rows(chk):
+def constructor_rows(chk, only=None):
     """the log constructors hand _find_base their own max_count / num_reserved / ceiling, within the
     ranges of its declared parameter types (no silent truncation at the dispatcher), and let its
     ValueError through (also used by C09: the base the merge kernels decode with)"""
@@ -18,6 +18,9 @@ def constructor_rows(chk):
 
     ex = glue.make_exec(chk)
     for cls in ("CountMinLog16", "CountMinLog8"):
+        if ("ctor", cls) in chk.done or (only is not None and cls not in only):
+            continue
+        chk.done.add(("ctor", cls))
         try:
             a_, objs, bad_ = _glue.good_objects(ex, cls, "fb")
         except pyexec.Unsupported as e:
